@@ -685,6 +685,7 @@ func (w *Worker) runPath(ld *Loaded, harness string, prefix []int64) (res *PathR
 		}()
 	}
 	res.Decis = append([]int64{}, p.decis...)
+	res.UF = len(p.sess.ufs) > 0
 	res.Steps = p.steps
 	res.Queries = p.sess.nqueries
 	for k, v := range p.sites {
